@@ -656,6 +656,8 @@ func (t *simTopic) Publish(_ context.Context, message []byte) error {
 }
 
 func (t *simTopic) Peers(context.Context) ([]peer.ID, error) {
+	// a gate point for the driver: the pubsub is slow to answer
+	TheHub.at("sim.peers", t.p, t.topic)
 	w := t.p.w
 	w.mu.Lock()
 	defer w.mu.Unlock()
